@@ -101,6 +101,8 @@ pub fn decode_inst(t: &Tape, cfg: &GenCfg, prefix: &str) -> Inst {
     let dur_choices = [600u64, 0, 1200, 3600, 10800, 400_000];
     let dist_choices = [1000u64, 0, 20_000, 300_000, 2_000_000];
     let symmetric = pick_w(f(p, 15), &[3, 1]) == 0;
+    // distances with metre resolution (not only whole kilometres)
+    let metre_noise = pick_w(f(p, 14), &[3, 1]) == 1;
     let mut dur = vec![vec![0u64; nlocs]; nlocs];
     let mut dist = vec![vec![0u64; nlocs]; nlocs];
     for i in 0..nlocs {
@@ -115,6 +117,9 @@ pub fn decode_inst(t: &Tape, cfg: &GenCfg, prefix: &str) -> Inst {
             } else {
                 dur[i][j] = if cfg.small_grid { choose(f(r, j), &[600u64, 0, 1800]) } else { dur_choices[pick_w(f(r, j), &[6, 2, 4, 3, 2, 1])] };
                 dist[i][j] = dist_choices[pick_w(f(r, MAX_LOCS + j), &[6, 1, 4, 3, 1])];
+                if metre_noise && dist[i][j] > 0 && dist[i][j] < 1_000_000 {
+                    dist[i][j] += 1 + ((i * 7 + j * 13) % 29) as u64;
+                }
             }
         }
     }
@@ -160,7 +165,7 @@ pub fn decode_inst(t: &Tape, cfg: &GenCfg, prefix: &str) -> Inst {
             let b = 3 + 4 * k;
             let dest = pick(f(r, b), nlocs);
             let duration = if cfg.small_grid { choose(f(r, b + 1), &[600u64, 1200]) } else { choose(f(r, b + 1), &[1800u64, 600, 1200, 3600, 1, 7200]) };
-            let distance = choose(f(r, b + 2), &[15_000u64, 1000, 0, 120_000]);
+            let distance = choose(f(r, b + 2), &[15_000u64, 1000, 0, 120_000]) + if metre_noise { 1 + ((i * 5 + k * 11) % 17) as u64 } else { 0 };
             let max_form = match pick_w(f(r, b + 3), &[5, 2, 2, 1]) {
                 0 => None,
                 1 => Some(1),
